@@ -37,6 +37,8 @@ pub struct NumericParser {
     is_first_digit: bool,
     has_comma: bool,
     has_hanging_point: bool,
+    /// the last large unit (万 億 兆), the next one has to be smaller
+    last_large_unit: Option<i32>,
     pub error_state: Error,
     total: StringNumber,
     subtotal: StringNumber,
@@ -83,6 +85,7 @@ impl NumericParser {
             is_first_digit: true,
             has_comma: false,
             has_hanging_point: false,
+            last_large_unit: None,
             error_state: Error::NONE,
             total: StringNumber::new(),
             subtotal: StringNumber::new(),
@@ -95,6 +98,7 @@ impl NumericParser {
         self.is_first_digit = true;
         self.has_comma = false;
         self.has_hanging_point = false;
+        self.last_large_unit = None;
         self.error_state = Error::NONE;
         self.total.clear();
         self.subtotal.clear();
@@ -153,6 +157,10 @@ impl NumericParser {
             self.digit_length = 0;
             self.has_comma = false;
         } else if NumericParser::is_large_unit(n) {
+            if matches!(self.last_large_unit, Some(last) if n <= last) {
+                // units are negated exponents: "十万一万", "千万百万", "1万2億"
+                return false;
+            }
             if !self.subtotal.add(&mut self.tmp) || self.subtotal.is_zero() {
                 return false;
             }
@@ -162,6 +170,7 @@ impl NumericParser {
             }
             self.subtotal.clear();
             self.tmp.clear();
+            self.last_large_unit = Some(n);
             self.is_first_digit = true;
             self.digit_length = 0;
             self.has_comma = false;
